@@ -154,6 +154,21 @@ Definition do_lock (E : env) (s : state) (a : acct) (x : txid) : state * out :=
               bal := bal s; log := log s |}, Ok)
   end.
 
+(* runERC20Lock (action/eth/ext_ERC20Lock.go), store effect only: the token checks and the cap are
+   folded into the oracle [x_erc_ok]; there is NO existence check on any of the three stores and
+   the failed store is not cleaned; the tracker is written over whatever is in the ongoing store.
+   Not part of [op]/[step]: the ERC-20 mint/burn side (a second currency) is not modelled, see
+   props/C15.v (7b) and the known finding C15.erc20_lock_no_existence_check. *)
+Definition do_lock_erc (E : env) (x_erc_ok : txid -> bool) (s : state) (a : acct) (x : txid) : state * out :=
+  if negb (x_erc_ok x) then (s, Fail)
+  else
+    let n := x_name (e_tx E x) in
+    (upd_ongoing s (<[n := new_tracker T_LOCKERC a x n (e_wits E)]> (ongoing s)), Ok).
+
+(* C15.erc20_lock_no_existence_check: an ERC-20 lock whose name is already in one of the stores *)
+Definition trig_erc_relock (E : env) (s : state) (x : txid) : bool :=
+  let n := x_name (e_tx E x) in has (ongoing s) n || has (passed s) n || has (failed s) n.
+
 (* runRedeem *)
 Definition do_redeem (E : env) (s : state) (a : acct) (x : txid) : state * out :=
   let info := e_tx E x in
